@@ -54,6 +54,10 @@ class IntColl(DataCollectionType[IntData, list]):
         return len(self._data)
 
 
+class IntColl2(IntColl):
+    """second collection type (identity mutation target)"""
+
+
 # ------------------------------------------------------------------ sources
 class SrcV(DataSource):
     """source: IntData(value)"""
@@ -139,6 +143,30 @@ class OpTwo(_IntOp):
     def _process_logic(self, data, a: int, b: int = 1):
         LOG.append(("OpTwo", {"a": a, "b": b}))
         return IntData(data.data + a - b)
+
+
+class OpTwoB(_IntOp):
+    """same signature as OpTwo, different processor (identity mutation target)"""
+
+    def _process_logic(self, data, a: int, b: int = 1):
+        LOG.append(("OpTwoB", {"a": a, "b": b}))
+        return IntData(data.data + a + b)
+
+
+class OpNest(_IntOp):
+    """x + k; carries a nested, otherwise unused option mapping (identity of nested parameter values)"""
+
+    def _process_logic(self, data, opts=None, k: int = 0):
+        LOG.append(("OpNest", {"k": k}))
+        return IntData(data.data + k)
+
+
+class OpNestB(_IntOp):
+    """same signature as OpNest, different processor (identity mutation target)"""
+
+    def _process_logic(self, data, opts=None, k: int = 0):
+        LOG.append(("OpNestB", {"k": k}))
+        return IntData(data.data - k)
 
 
 class OpCtxW(_IntOp):
@@ -340,7 +368,7 @@ def register() -> None:
     """Make the library resolvable by name (sweeps resolve `collection` through the registry)."""
     from semantiva.registry.processor_registry import ProcessorRegistry
 
-    for cls in (IntData, SubIntData, OtherData, IntColl, SrcV, SrcD, PSrc, OpAdd, OpAddDef, OpAff, OpTwo, OpCtxW, OpCtxBad, OpToOther, OpSub, OpBoom, OpMkColl, OpSum, PrVal, PrParam, PrReq, Snk, PSnk, CpSum, CpBad):
+    for cls in (IntData, SubIntData, OtherData, IntColl, IntColl2, OpTwoB, OpNest, OpNestB, SrcV, SrcD, PSrc, OpAdd, OpAddDef, OpAff, OpTwo, OpCtxW, OpCtxBad, OpToOther, OpSub, OpBoom, OpMkColl, OpSum, PrVal, PrParam, PrReq, Snk, PSnk, CpSum, CpBad):
         ProcessorRegistry.register_processor(cls.__name__, cls)
 
 
